@@ -269,6 +269,10 @@ func checkC02(c *Ctx) {
 	checkBoundPairShortcuts(c, gen)
 	checkMapStackLift(c, gen)
 	checkFormatNormalisation(c, "C02.R3.format-normalisation", gen)
+	// a format whose Go type is not a custom formatter gets no validate.FormatOf call
+	checkFormatTables(c, "C02.R3.format-tables", gen)
+	// the predicates that decide whether a validator is generated answer from inside loops over the schema's members
+	checkLoopTotality(c, "C02.R3.loop-totality", gen, "generator", 20, generatorLoopExits)
 }
 
 // reachableDefines: defines reachable through template calls from the given entry points.
